@@ -94,6 +94,28 @@ theorem closure_closed_when_limits_not_hit (p : PlanIn) (pl : Plan) (h : makePla
   rw [closureAllF_erase] at hcl
   exact hcl x hx.2 c hc
 
+/-- **plan_glyphset_is_least_fixed_point.** If no limit fired and every component id names a glyph of
+the font, the plan's glyph set is exactly the set of glyphs reachable from the roots
+(`glyphset_colred`: `.notdef`, requested glyphs, glyphs of requested characters, cmap-14 / COLR
+additions) through composite components — the least set containing the roots and closed under
+components.  In particular it does not depend on glyph order, iteration order or the budget
+bookkeeping, and a cyclic component graph changes nothing. -/
+theorem plan_glyphset_is_least_fixed_point (p : PlanIn) (pl : Plan) (h : makePlan p = some pl)
+    (hl : planLimitFired p = false) (hwf : ∀ g c, c ∈ compsOf p.comps g → c < p.num) (x : Nat) :
+    x ∈ pl.glyphset ↔ ∃ r ∈ pl.colred, Reach p.comps r x := by
+  constructor
+  · intro hx
+    exact ((plan_glyphset_only_reachable p pl h).1 x hx).2
+  · rintro ⟨r, hr, hreach⟩
+    have hclosed := closure_closed_when_limits_not_hit p pl h hl
+    obtain ⟨_, hcol, hgs, _⟩ := makePlan_some p pl h
+    have hroot : r ∈ pl.glyphset := by
+      rw [hgs]; rw [hcol] at hr; exact planColred_sub_glyphset p r hr
+    clear hr
+    induction hreach with
+    | refl a => exact hroot
+    | step hm _ ih => exact ih (hclosed _ hroot _ hm (hwf _ _ hm))
+
 /-! ## renumbering -/
 
 /-- **glyph_map_monotone_bijection.** Without retain-gids the new→old list pairs the new ids
@@ -426,6 +448,23 @@ theorem loca_encoding_exact (nout : Nat) (news : List Nat) (gs : List Bytes)
       simp [slotSize, paddedSize]
     omega
 
+/-! ## simple glyphs -/
+
+/-- **simple_glyph_is_prefix.** Without NO_HINTING and SET_OVERLAPS_FLAG, a simple glyph that is
+written non-empty is a prefix of its input record: header, end points, instructions, and the first
+`k` bytes of flag/coordinate data, where `k ≠ 0` is the result of `trim_simple_glyph_padding` — which
+by `trim_exact` is exactly the flags and coordinates of all `num_coords` points.  Nothing but
+trailing padding is removed, so the outline data is byte-identical.  (With NO_HINTING the
+instructions are removed and instructionLength zeroed, with SET_OVERLAPS_FLAG bit 0x40 of the first
+flag is set: modelled and correspondence-tested, not restated here.) -/
+theorem simple_glyph_is_prefix (flags : Nat) (d : Bytes) (nc : Nat) (out : Bytes) (il k : Nat)
+    (hil : il = u16At d (10 + 2 * nc))
+    (hk : k = trimSimpleGlyphPadding (d.drop (12 + 2 * nc + il)) (u16At d (10 + 2 * (nc - 1)) + 1))
+    (hf1 : hasFlag flags F_NO_HINTING = false) (hf2 : hasFlag flags F_SET_OVERLAPS = false)
+    (h : subsetSimple flags d nc = .bytes out) (hne : out ≠ []) :
+    out = d.take (12 + 2 * nc + il + k) ∧ k ≠ 0 ∧ 12 + 2 * nc + il + k ≤ d.length :=
+  subsetSimple_prefix flags d nc out il k hil hk hf1 hf2 h hne
+
 /-! ## composite glyphs -/
 
 /-- **components_remapped.** Whenever `subset_composite_glyph` returns a non-empty glyph, the input
@@ -455,6 +494,21 @@ theorem components_remapped (flags : Nat) (gmap : Nat → Option Nat) (d out : B
       · exact absurd h.symm hne
       · rw [← h]; exact List.take_prefix _ _
     · rw [← h]; exact List.take_prefix _ _
+
+/-- **closure_sees_rewriters_components.** The component list the closure iterates (read-fonts
+`components()`, modelled by `componentsOfRecord`) is a prefix of the component list the rewriter
+walks (`compIds`, see `components_remapped`) — it can only miss a last record whose argument /
+transform bytes are cut off.  Together: for a composite that is written non-empty, every component
+the closure saw is rewritten to its image, and any further one also had an image. -/
+theorem closure_sees_rewriters_components (d : Bytes) (ids : List Nat)
+    (h : compIds d d.length (d.length + 1) 10 = some ids) :
+    componentsOfRecord d <+: ids := by
+  unfold componentsOfRecord
+  split
+  · exact List.nil_prefix
+  · split
+    · exact List.nil_prefix
+    · exact compIterGo_prefix d _ _ ids h
 
 /-! ## trim_simple_glyph_padding -/
 
@@ -510,5 +564,10 @@ example : trimSimpleGlyphPadding [0x3F, 2, 1, 2, 3, 4, 5, 6, 0, 0] 3 = 8 := by d
 example : subsetComposite 0 (fun g => if g = 5 then some 2 else none)
     [0xFF, 0xFF, 0, 0, 0, 0, 0, 0, 0, 0, 0x00, 0x02, 0, 5, 1, 1, 0, 0] =
     [0xFF, 0xFF, 0, 0, 0, 0, 0, 0, 0, 0, 0x00, 0x02, 0, 2, 1, 1] := by decide
+
+/-- `simple_glyph_is_prefix` has instances: a 1-contour, 1-point glyph (flag 0x37, x = 5, y = 6) with one
+instruction byte and two bytes of padding -/
+example : subsetSimple 0 [0, 1, 0, 0, 0, 0, 0, 0, 0, 0, 0, 0, 0, 1, 0xB0, 0x37, 5, 6, 0, 0] 1 =
+    .bytes [0, 1, 0, 0, 0, 0, 0, 0, 0, 0, 0, 0, 0, 1, 0xB0, 0x37, 5, 6] := by decide
 
 end FontVerif.C17
